@@ -175,17 +175,28 @@ def main():
         cur["events"].append(("report_error", msg[1].decode() if isinstance(msg, tuple) and isinstance(msg[1], bytes) else str(msg)))
         return ("ided_error",)
 
+    # the parsed double is an arbitrary IEEE-754 value that is not NaN (a literal's text is digits, a point, an exponent and
+    # a sign: str::parse gives a finite double or, beyond the range, an infinity of the text's sign)
+    PARSED = z3.FP("parsed_double", z3.Float64())
+    fp_finite = lambda v: z3.Not(z3.Or(z3.fpIsNaN(v), z3.fpIsInf(v)))
+
     def m_parse_f64(e, m, a):
         cur["events"].append(("parse_f64",))
         if e.decide(z3.Bool("f64_parse_ok")):
-            return ("enum", "Result::Ok", [("f64", "parsed")])
+            return ("enum", "Result::Ok", [PARSED])
         return ("enum", "Result::Err", [("ParseFloatError",)])
 
-    def m_is_finite(e, m, a):
-        v = a[0]
-        if v != ("f64", "parsed"):
-            raise Unsupported("is_finite of %r" % (v,))
-        return e.decide(z3.Bool("f64_is_finite"))
+    def fp_pred(name):
+        def f(e, m, a):
+            v = a[0]
+            if not (is_sym(v) and z3.is_fp(v)):
+                raise Unsupported("%s of %r" % (name, v))
+            return {"is_finite": fp_finite(v), "is_infinite": z3.fpIsInf(v), "is_nan": z3.fpIsNaN(v),
+                    "is_sign_negative": z3.fpIsNegative(v), "is_sign_positive": z3.fpIsPositive(v), "is_normal": z3.fpIsNormal(v)}[name]
+        return f
+
+    def m_fp_abs(e, m, a):
+        return z3.fpAbs(a[0])
 
     def m_fmt_arg(e, m, a):
         return ("fmt_arg", text_of(e, a[0]))
@@ -251,7 +262,8 @@ def main():
         (r"^core::str::<impl str>::parse::<(i64|u64|i128|u128)>$", m_parse_int),
         (r"^<(i64|u64|i128|u128) as FromStr>::from_str$", m_parse_int),
         (r"^core::str::<impl str>::parse::<f64>$", m_parse_f64),
-        (r"^core::f64::<impl f64>::is_finite$", m_is_finite),
+        (r"^(?:core|std)::f64::<impl f64>::(is_finite|is_infinite|is_nan|is_sign_negative|is_sign_positive|is_normal)$", lambda e, m, a: fp_pred(m.group(1))(e, m, a)),
+        (r"^(?:core|std)::f64::<impl f64>::abs$", m_fp_abs),
         (r"^core::num::<impl (i64|i128)>::checked_neg$", m_checked_neg),
         (r"^<(i64|u64) as TryFrom<(?:i128|u128|u64|i64)>>::try_from$", m_try_from_int),
         (r"^String::len$", m_len),
@@ -347,22 +359,29 @@ def main():
             evs = [x for x in cur["events"] if x[0] != "parse_f64"]
             mdl = e.solver.model() if e.check() else None
             okp = mdl is not None and z3.is_true(mdl.eval(z3.Bool("f64_parse_ok"), model_completion=True))
-            fin = mdl is not None and z3.is_true(mdl.eval(z3.Bool("f64_is_finite"), model_completion=True))
             probs = []
             if len(evs) != 1:
                 probs.append("not exactly one of next_expr / report_error")
-            elif okp and fin:
-                ex = evs[0][1] if evs[0][0] == "next_expr" else None
-                if not (ex and ex[1] == "Expr::Literal" and ex[2][0][1] == "Val::Double" and ex[2][0][2][0] == ("f64", "parsed")):
-                    probs.append("a finite double literal does not become Val::Double of the parsed value: %r" % (evs[0],))
-            elif evs[0][0] != "report_error":
-                probs.append("an unparsable or out-of-range (infinite) double literal is accepted")
+            elif evs[0][0] == "next_expr":
+                # accepted: only possible for a parse that succeeded, the node carries the parsed value itself, and no
+                # non-finite value can have come this way
+                ex = evs[0][1]
+                if not okp or not (ex and ex[1] == "Expr::Literal" and ex[2][0][1] == "Val::Double" and is_sym(ex[2][0][2][0]) and ex[2][0][2][0].eq(PARSED)):
+                    probs.append("an accepted double literal does not become Val::Double of the parsed value: %r" % (str(evs[0])[:200],))
+                elif e.check(z3.Not(fp_finite(PARSED))):
+                    w = e.solver.model().eval(PARSED, model_completion=True)
+                    probs.append("an out-of-range (infinite) double literal is accepted: parse result %s" % w)
+            elif evs[0][0] == "report_error":
+                if okp and not e.check(z3.Not(fp_finite(PARSED))):
+                    probs.append("a finite double literal is rejected")
+            else:
+                probs.append("neither a literal node nor a reported error: %r" % (str(evs[0])[:120],))
             if probs:
                 failures.append(dict(desc, problems=probs))
             else:
                 stats["proved"] += 1
         try:
-            eng.explore(entry, None, on_path, [])
+            eng.explore(entry, None, on_path, [z3.Not(z3.fpIsNaN(PARSED))] if "visit_Double" in str(desc) or True else [])
         except PanicFound as p:
             failures.append(dict(desc, problems=["panic reachable: %s" % p.msg]))
         for k in ("paths", "queries"):
